@@ -10,7 +10,9 @@ def sh(cmd, cwd=None):
     r = subprocess.run(cmd, shell=True, cwd=cwd, env=env, stdout=subprocess.PIPE, stderr=subprocess.STDOUT, text=True)
     return r.returncode, r.stdout
 meta = json.load(open(os.path.join(out, "meta.json")))
-demo_dir = meta.get("demo_dir", ".").strip("/") or "."
+demo_dir = (meta.get("demo_dir", ".").split() or ["."])[0].strip("/").rstrip(",;") or "."
+if not os.path.isdir(os.path.join("/repo", demo_dir)):
+    demo_dir = "."
 wt = tempfile.mkdtemp(prefix="seeded.", dir="/tmp")
 rev = os.environ.get("SEEDED_REV", "HEAD")
 sh("git -C /repo worktree add -q --detach %s %s" % (wt, rev))
